@@ -108,12 +108,45 @@ def extrude(ctx):
                      c.span, key=b.name + '|E3|append%d' % (i + 1))
 
 
+def option_or_default(body, defs, is_opt, is_default):
+    """two definitions of one value: one is the payload of an Option satisfying is_opt (its term, the engine erases the `as Some`
+    projection - safe Rust can only take it in the Some arm), the other satisfies is_default and is made on the None edge of a match /
+    if-let on that same Option"""
+    hit = [(t, bb) for t, bb in defs if len(alts(t)) == 1 and is_opt(strip_casts(list(alts(t))[0]))]
+    dfl = [(t, bb) for t, bb in defs if len(alts(t)) == 1 and is_default(strip_casts(list(alts(t))[0]))]
+    if len(hit) != 1 or len(dfl) != 1 or len(defs) != 2:
+        return False
+    for cond, vals, a in q.guards(body, dfl[0][1]):
+        subj = cond[1] if cond[0] == 'discr' else None
+        if subj is not None and is_opt(strip_casts(subj)):
+            tm = body.blocks[a]['term']
+            explicit = [v for v, _ in tm['targets']]
+            if vals == [0] or (vals == ['otherwise'] and explicit == [1]):
+                return True
+        if cond[0] == 'call' and cond[1] in ('std::option::Option::is_some', 'std::option::Option::is_none') and is_opt(strip_casts(cond[2][0])):
+            if q.bool_outcome(body, a, vals) is (cond[1].endswith('is_none')):
+                return True
+    return False
+
+
+def field_operand_root(body, st, field):
+    """the user local a struct-literal field is initialised from (plain copies followed), or None"""
+    rv = st['rv']
+    names = rv.get('fields') or []
+    ops = rv.get('ops') or []
+    for n_, o_ in zip(names, ops):
+        if n_ == field:
+            return q.root_local(body, o_)
+    return None
+
+
 def mapper(ctx):
     fx = ctx.fx
     lb = ctx.anchor(U + 'PaletteMapper::lookup')
     if lb is not None:
         defs = [(t, bb) for (l, pj, t, bb, sp) in q.defs_in(lb, lb.cfg.reach) if l == 0 and not pj]
         ok_t = ok_o = False
+        opaque_defs = []
         for t, bb in defs:
             gs = [(c, q.bool_outcome(lb, a, v)) for c, v, a in q.guards(lb, bb)]
 
@@ -124,10 +157,17 @@ def mapper(ctx):
             if pol == [True]:
                 ok_t = len(al) == 1 and is_param_path(al[0], 1, ['transparent'])
             elif pol == [False]:
-                gets = [a for a in al if a[0] == 'call' and a[1].endswith('HashMap::get')]
-                fails = [a for a in al if is_param_path(a, 1, ['failure'])]
-                ok_o = len(gets) == 1 and len(fails) == 1 and len(al) == 2 and is_param_path(gets[0][2][0], 1, ['map']) and \
-                    key_shape(gets[0][2][1], [lambda a: is_param(a, 2), lambda a: is_param(a, 3), lambda a: is_param(a, 4)])
+                opaque_defs.append((t, bb))
+
+        def is_get(a):
+            return a[0] == 'call' and a[1].endswith('HashMap::get') and is_param_path(a[2][0], 1, ['map']) and \
+                key_shape(a[2][1], [lambda x: is_param(x, 2), lambda x: is_param(x, 3), lambda x: is_param(x, 4)])
+        # one definition `*map.get(&key).unwrap_or(&self.failure)`, or the same written as a match: the hit under Some, failure under None
+        if len(opaque_defs) == 1:
+            al = list(alts(opaque_defs[0][0]))
+            ok_o = len(al) == 2 and sum(1 for a in al if is_get(a)) == 1 and sum(1 for a in al if is_param_path(a, 1, ['failure'])) == 1
+        elif len(opaque_defs) == 2:
+            ok_o = option_or_default(lb, opaque_defs, is_get, lambda a: is_param_path(a, 1, ['failure']))
         ctx.inst('M1', 'lookup#transparent', ok_t, 'alpha != 255 -> %s' % ('self.transparent' if ok_t else 'NOT (only) self.transparent'), lb.span, key=lb.name + '|M1|transparent')
         ctx.inst('M1', 'lookup#opaque', ok_o, 'alpha == 255 -> %s' % ('map.get(r + (g << 8) + (b << 16)) or self.failure' if ok_o else 'NOT map.get(key(r,g,b)).unwrap_or(failure)'),
                  lb.span, key=lb.name + '|M1|opaque')
@@ -141,7 +181,15 @@ def mapper(ctx):
             ok = len(tr) == 2 and any(is_param_path(x, 2, ['failure']) for x in tr) and any(is_param_path(x, 2, ['transparent']) for x in tr) and \
                 is_param_path(f.get('failure'), 2, ['failure'])
             uo = q.calls(nb, 'std::option::Option::unwrap_or')
-            ok = ok and len(uo) == 1 and is_param_path(q.arg_terms(uo[0])[0], 2, ['transparent']) and is_param_path(q.arg_terms(uo[0])[1], 2, ['failure'])
+            if uo:
+                ok = ok and len(uo) == 1 and is_param_path(q.arg_terms(uo[0])[0], 2, ['transparent']) and is_param_path(q.arg_terms(uo[0])[1], 2, ['failure'])
+            else:
+                # written as a match / if let: the payload under Some, options.failure under None
+                root = None
+                for bb_, st_, t_ in q.stmt_aggs(nb, U + 'PaletteMapper'):
+                    root = field_operand_root(nb, st_, 'transparent')
+                ds = q.local_defs(nb, root) if root is not None else []
+                ok = ok and len(ds) == 2 and option_or_default(nb, ds, lambda a: is_param_path(a, 2, ['transparent']), lambda a: is_param_path(a, 2, ['failure']))
         ctx.inst('M2', 'new#options', ok, 'PaletteMapper{transparent: %s, failure: %s}; must be (options.transparent.unwrap_or(options.failure), options.failure)'
                  % (show(dict(t[3]).get('transparent'))[:70] if t[0] == 'agg' else '?', show(dict(t[3]).get('failure'))[:40] if t[0] == 'agg' else '?'), nb.span,
                  key=nb.name + '|M2|options')
@@ -177,12 +225,12 @@ def mapper(ctx):
             root = _c11.root_local(nb, c.args[2]) if ldst is not None else None
             for tt, bb in (_c11.local_defs(nb, root) if root is not None else []):
                 n += 1
-                gs = [(cc_, q.bool_outcome(nb, a, v)) for cc_, v, a in q.guards(nb, bb)]
-
-                def small(c_):
-                    return c_[0] == 'bin' and c_[1] in ('Lt', 'Ge') and q.const_val(c_[3]) == 256 and item is not None and \
-                        P.canon(c_[2]) == P.canon(('field', item, '0'))
-                pol = [(c_[1] == 'Lt') == tr_ for c_, tr_ in gs if small(c_) and tr_ is not None]
+                # what is known about the entry index where this value is chosen, in any spelling (`< 256`, `<= 255`, `!(>= 256)`, mirrored)
+                known = [(op_, q.const_val(r_)) for op_, l_, r_ in q.facts_at(nb, bb)
+                         if item is not None and P.canon(l_) == P.canon(('field', item, '0')) and isinstance(q.const_val(r_), int)]
+                small = ('Lt', 256) in known or ('Le', 255) in known
+                big = ('Ge', 256) in known or ('Gt', 255) in known
+                pol = [True] if small and not big else [False] if big and not small else []
                 s0 = strip_casts(tt)
                 if item is not None and P.canon(tt) == P.canon(('field', item, '0')):
                     val_ok = val_ok and pol == [True]
